@@ -77,6 +77,7 @@ def _raw(spec):
                 m = rng.standard_normal(D) * sep
                 n = int(np.sum(labels == k))
                 a[idx][labels == k] = rng.standard_normal((n, D)) @ A.T + m
+        a = a * float(spec.get('scale', 1.0))
     elif kind == 'affiliation':
         # strictly positive, sums to one over axis -2
         a = rng.uniform(0.05, 1.0, size=shape)
